@@ -47,11 +47,15 @@ class Obj:
         raise Unsupported("attribute %s" % name)
 
 
+import operator as _op
+BIN_OPS = {ast.Add: _op.add, ast.Sub: _op.sub, ast.Mult: _op.mul, ast.Mod: _op.mod, ast.FloorDiv: _op.floordiv, ast.Div: _op.truediv,
+           ast.Pow: _op.pow, ast.BitOr: _op.or_, ast.BitAnd: _op.and_, ast.BitXor: _op.xor, ast.LShift: _op.lshift, ast.RShift: _op.rshift}
 NOT_EXCEPTIONS = {"SystemExit", "KeyboardInterrupt", "GeneratorExit"}
 STR_METHODS = {"lower", "upper", "strip", "lstrip", "rstrip", "startswith", "endswith", "find", "rfind", "replace", "rindex", "partition",
                "rpartition", "isidentifier", "isupper", "islower", "zfill", "ljust", "rjust", "center",
                "isdigit", "isalpha", "isalnum", "isspace", "split", "rsplit", "join", "count", "index", "expandtabs",
-               "splitlines", "title", "format"}
+               "splitlines", "title", "format", "casefold", "capitalize", "swapcase", "removeprefix", "removesuffix", "isnumeric",
+               "isdecimal", "isprintable", "istitle", "translate", "format_map", "encode"}
 LIST_METHODS = {"append", "pop", "insert", "reverse", "index", "count", "extend", "remove", "sort", "clear", "copy"}
 MATCH_METHODS = {"group", "start", "end", "groups", "groupdict", "span"}
 
@@ -104,23 +108,24 @@ class Evaluator:
                 return not v
             if isinstance(node.op, ast.USub):
                 return -v
+            if isinstance(node.op, ast.UAdd):
+                return +v
+            if isinstance(node.op, ast.Invert) and isinstance(v, int):
+                return ~v
             raise Unsupported("unary op")
         if isinstance(node, ast.BinOp):
             a, b = self.ev(node.left, env), self.ev(node.right, env)
+            fn = BIN_OPS.get(type(node.op))
+            if fn is None:
+                raise Unsupported("binop")
             try:
-                if isinstance(node.op, ast.Add):
-                    return a + b
-                if isinstance(node.op, ast.Sub):
-                    return a - b
-                if isinstance(node.op, ast.Mult):
-                    return a * b
-                if isinstance(node.op, ast.Mod):
-                    return a % b
-                if isinstance(node.op, ast.FloorDiv):
-                    return a // b
+                return fn(a, b)
             except TypeError as err:
                 raise PyRaise("TypeError", str(err))
-            raise Unsupported("binop")
+            except ZeroDivisionError as err:
+                raise PyRaise("ZeroDivisionError", str(err))
+            except ValueError as err:
+                raise PyRaise("ValueError", str(err))
         if isinstance(node, ast.Compare):
             left = self.ev(node.left, env)
             for op, c in zip(node.ops, node.comparators):
@@ -169,10 +174,28 @@ class Evaluator:
                 raise PyRaise("KeyError", str(err))
             except TypeError as err:
                 raise PyRaise("TypeError", str(err))
-        if isinstance(node, ast.Tuple):
-            return tuple(self.ev(e, env) for e in node.elts)
-        if isinstance(node, ast.List):
-            return [self.ev(e, env) for e in node.elts]
+        if isinstance(node, (ast.Tuple, ast.List)):
+            out = []
+            for e in node.elts:
+                if isinstance(e, ast.Starred):
+                    out.extend(list(self.ev(e.value, env)))
+                else:
+                    out.append(self.ev(e, env))
+            return tuple(out) if isinstance(node, ast.Tuple) else out
+        if isinstance(node, ast.NamedExpr):
+            v = self.ev(node.value, env)
+            self.assign(node.target, v, env)
+            return v
+        if isinstance(node, ast.Yield):
+            if "$yield" not in env:
+                raise Unsupported("yield outside a generator body")
+            env["$yield"].append(self.ev(node.value, env) if node.value is not None else None)
+            return None
+        if isinstance(node, ast.YieldFrom):
+            if "$yield" not in env:
+                raise Unsupported("yield outside a generator body")
+            env["$yield"].extend(list(self.ev(node.value, env)))
+            return None
         if isinstance(node, ast.Dict) and all(k_ is not None for k_ in node.keys):
             return {self.ev(k_, env): self.ev(v_, env) for k_, v_ in zip(node.keys, node.values)}
         if isinstance(node, ast.Set):
@@ -189,7 +212,7 @@ class Evaluator:
                 else:
                     raise Unsupported("f-string format")
             return "".join(out)
-        if isinstance(node, ast.SetComp) and len(node.generators) == 1:
+        if isinstance(node, ast.SetComp):
             return set(self.ev(ast.ListComp(elt=node.elt, generators=node.generators), env))
         if isinstance(node, ast.DictComp) and len(node.generators) == 1:
             g = node.generators[0]
@@ -200,14 +223,20 @@ class Evaluator:
                 if all(self.ev(c, env2) for c in g.ifs):
                     out[self.ev(node.key, env2)] = self.ev(node.value, env2)
             return out
-        if isinstance(node, (ast.GeneratorExp, ast.ListComp)) and len(node.generators) == 1 and not node.generators[0].is_async:
-            g = node.generators[0]
+        if isinstance(node, (ast.GeneratorExp, ast.ListComp)) and not any(g.is_async for g in node.generators):
             out = []
-            for v in self.ev(g.iter, env):
-                env2 = dict(env)
-                self.assign(g.target, v, env2)
-                if all(self.ev(c, env2) for c in g.ifs):
-                    out.append(self.ev(node.elt, env2))
+
+            def loop(k, env_k):
+                if k == len(node.generators):
+                    out.append(self.ev(node.elt, env_k))
+                    return
+                g = node.generators[k]
+                for v in self.ev(g.iter, env_k):
+                    env2 = dict(env_k)
+                    self.assign(g.target, v, env2)
+                    if all(self.ev(c, env2) for c in g.ifs):
+                        loop(k + 1, env2)
+            loop(0, env)
             return out
         if isinstance(node, ast.Call):
             return self.call(node, env)
@@ -219,16 +248,35 @@ class Evaluator:
                 return getattr(v, node.attr)         # `append = items.append`
             if isinstance(v, str) and node.attr in STR_METHODS:
                 return getattr(v, node.attr)
+            if isinstance(v, type) and node.attr == "__name__":
+                return v.__name__
+            if isinstance(v, dict) and node.attr in ("get", "keys", "values", "items", "update", "setdefault", "pop"):
+                return getattr(v, node.attr)
+            if isinstance(v, (set, frozenset)) and node.attr in ("add", "update", "discard", "union"):
+                return getattr(v, node.attr)
+            if isinstance(v, tuple) and hasattr(type(v), "_fields") and node.attr in type(v)._fields:
+                return getattr(v, node.attr)               # a namedtuple field
+            if isinstance(v, re.Match) and node.attr in ("string", "pos", "endpos", "lastgroup", "lastindex", "re"):
+                return getattr(v, node.attr)
+            if isinstance(v, re.Pattern) and node.attr in ("pattern", "flags", "groups", "groupindex"):
+                return getattr(v, node.attr)
             raise Unsupported("attribute %s" % node.attr)
         raise Unsupported(type(node).__name__)
 
     def call(self, node, env):
         fn = node.func
-        args = [self.ev(a, env) for a in node.args]
-        if node.keywords:
-            kw = {k.arg: self.ev(k.value, env) for k in node.keywords}
-        else:
-            kw = {}
+        args = []
+        for a in node.args:
+            if isinstance(a, ast.Starred):
+                args.extend(list(self.ev(a.value, env)))
+            else:
+                args.append(self.ev(a, env))
+        kw = {}
+        for k in node.keywords:
+            if k.arg is None:
+                kw.update(self.ev(k.value, env))
+            else:
+                kw[k.arg] = self.ev(k.value, env)
         if isinstance(fn, ast.Name):
             name = fn.id
             if name in env and callable(env[name]):
@@ -250,6 +298,25 @@ class Evaluator:
                     raise PyRaise("TypeError", str(err))
             if name in ("set", "dict", "frozenset", "zip", "sum"):
                 return {"set": set, "dict": dict, "frozenset": frozenset, "zip": lambda *xs: list(zip(*xs)), "sum": sum}[name](*args, **kw)
+            if name in ("ord", "chr", "divmod", "round", "callable", "float", "hex", "bin", "oct", "format"):
+                try:
+                    return {"ord": ord, "chr": chr, "divmod": divmod, "round": round, "callable": callable, "float": float, "hex": hex,
+                            "bin": bin, "oct": oct, "format": format}[name](*args, **kw)
+                except (TypeError, ValueError) as err:
+                    raise PyRaise(type(err).__name__, str(err))
+            if name == "filter":
+                return [x for x in args[1] if (args[0](x) if args[0] is not None else x)]
+            if name == "map":
+                return [args[0](*t) for t in zip(*args[1:])]
+            if name == "iter":
+                return iter(args[0])
+            if name == "next":
+                try:
+                    return next(*args)
+                except StopIteration:
+                    raise PyRaise("StopIteration")
+            if name == "print":
+                return None
             if name in ("min", "max", "range", "str", "bool", "tuple", "list", "reversed", "enumerate", "isinstance", "any", "all", "sorted", "repr"):
                 if name == "isinstance":
                     t = args[1]
@@ -289,10 +356,18 @@ class Evaluator:
                     return getattr(recv, m)(*args)
                 except IndexError as err:
                     raise PyRaise("IndexError", str(err))
-            if isinstance(recv, dict) and m in ("get", "keys", "values", "items", "update", "setdefault", "pop", "copy"):
-                return getattr(recv, m)(*args)
-            if isinstance(recv, (set, frozenset)) and m in ("union", "add", "update", "intersection", "difference", "discard"):
-                return getattr(recv, m)(*args)
+            if isinstance(recv, dict) and m in ("get", "keys", "values", "items", "update", "setdefault", "pop", "copy", "clear", "popitem"):
+                try:
+                    return getattr(recv, m)(*args, **kw)
+                except KeyError as err:
+                    raise PyRaise("KeyError", str(err))
+            if isinstance(recv, (set, frozenset)) and m in ("union", "add", "update", "intersection", "difference", "discard", "remove", "pop", "copy",
+                                                             "clear", "issubset", "issuperset", "isdisjoint", "symmetric_difference",
+                                                             "intersection_update", "difference_update"):
+                try:
+                    return getattr(recv, m)(*args)
+                except KeyError as err:
+                    raise PyRaise("KeyError", str(err))
             if isinstance(recv, tuple) and m in ("index", "count"):
                 return getattr(recv, m)(*args)
             if recv is None:
@@ -307,47 +382,67 @@ class Evaluator:
         raise Unsupported("call form")
 
     # ------------------------------------------------------------------ statements
-    def run_function(self, funcdef, args, kwargs=None, env0=None):
-        """Interpret a FunctionDef on concrete arguments; returns its value (or raises PyRaise/Unsupported).  `env0`: names visible
-        in the body besides the parameters (e.g. `super` / `__class__` of a method)."""
-        env = dict(env0) if env0 else {}
-        params = [a.arg for a in funcdef.args.posonlyargs + funcdef.args.args]
-        defaults = funcdef.args.defaults
+    def bind_params(self, funcdef, args, kwargs, env, default_env):
+        a_ = funcdef.args
+        params = [a.arg for a in a_.posonlyargs + a_.args]
+        defaults = a_.defaults
         for p, d in zip(params[len(params) - len(defaults):], defaults):
-            env[p] = self.ev(d, {})
+            env[p] = self.ev(d, default_env)
         for p, a in zip(params, args):
             env[p] = a
+        if len(args) > len(params):
+            if a_.vararg is None:
+                raise PyRaise("TypeError", "too many positional arguments")
+            env[a_.vararg.arg] = tuple(args[len(params):])
+        elif a_.vararg is not None:
+            env[a_.vararg.arg] = ()
+        extra = {}
+        known = set(params) | {k.arg for k in a_.kwonlyargs}
         for k, v in (kwargs or {}).items():
-            env[k] = v
-        for a_, d in zip(funcdef.args.kwonlyargs, funcdef.args.kw_defaults):
-            if a_.arg not in env and d is not None:
-                env[a_.arg] = self.ev(d, {})
-        missing = [p for p in params if p not in env]
+            if k in known or a_.kwarg is None:
+                env[k] = v
+            else:
+                extra[k] = v
+        if a_.kwarg is not None:
+            env[a_.kwarg.arg] = extra
+        for k_, d in zip(a_.kwonlyargs, a_.kw_defaults):
+            if k_.arg not in env and d is not None:
+                env[k_.arg] = self.ev(d, default_env)
+        missing = [p for p in params + [k.arg for k in a_.kwonlyargs] if p not in env]
         if missing:
             raise Unsupported("missing args %s" % missing)
+
+    def run_body(self, funcdef, env):
+        """the body of a def: a generator function is run to its end and hands back the values it yielded (eagerly: values are not
+        produced on demand, which only matters for code that interleaves side effects with consumption)"""
+        if is_generator(funcdef):
+            env["$yield"] = []
+            try:
+                self.block(funcdef.body, env)
+            except _Return:
+                pass
+            return iter(env["$yield"])
         try:
             self.block(funcdef.body, env)
         except _Return as r:
             return r.value
         return None
 
+    def run_function(self, funcdef, args, kwargs=None, env0=None):
+        """Interpret a FunctionDef on concrete arguments; returns its value (or raises PyRaise/Unsupported).  `env0`: names visible
+        in the body besides the parameters (e.g. `super` / `__class__` of a method)."""
+        env = dict(env0) if env0 else {}
+        self.bind_params(funcdef, args, kwargs, env, {})
+        return self.run_body(funcdef, env)
+
     def _closure(self, funcdef, outer):
         def call(*args, **kwargs):
             env = dict(outer)
-            params = [a.arg for a in funcdef.args.posonlyargs + funcdef.args.args]
-            defaults = funcdef.args.defaults
-            for p, d in zip(params[len(params) - len(defaults):], defaults):
-                env[p] = self.ev(d, outer)
-            for p, a in zip(params, args):
-                env[p] = a
-            env.update(kwargs)
+            self.bind_params(funcdef, list(args), kwargs, env, outer)
             if isinstance(funcdef, ast.Lambda):
                 return self.ev(funcdef.body, env)
-            try:
-                self.block(funcdef.body, env)
-            except _Return as r:
-                return r.value
-            return None
+            env["$outer"] = outer
+            return self.run_body(funcdef, env)
         return call
 
     def block(self, stmts, env):
@@ -357,8 +452,29 @@ class Evaluator:
     def assign(self, target, value, env):
         if isinstance(target, ast.Name):
             env[target.id] = value
+            if target.id in env.get("$nonlocal", ()):
+                o = env.get("$outer")
+                while o is not None:
+                    if target.id in o:
+                        o[target.id] = value
+                        break
+                    o = o.get("$outer")
+            if target.id in env.get("$global", ()):
+                self.g[target.id] = value
         elif isinstance(target, (ast.Tuple, ast.List)):
             vals = list(value)
+            stars = [i for i, t in enumerate(target.elts) if isinstance(t, ast.Starred)]
+            if stars:
+                i = stars[0]
+                after = len(target.elts) - i - 1
+                if len(vals) < len(target.elts) - 1:
+                    raise PyRaise("ValueError", "unpack")
+                for t, v in zip(target.elts[:i], vals[:i]):
+                    self.assign(t, v, env)
+                self.assign(target.elts[i].value, vals[i:len(vals) - after], env)
+                for t, v in zip(target.elts[i + 1:], vals[len(vals) - after:]):
+                    self.assign(t, v, env)
+                return
             if len(vals) != len(target.elts):
                 raise PyRaise("ValueError", "unpack")
             for t, v in zip(target.elts, vals):
@@ -366,7 +482,17 @@ class Evaluator:
         elif isinstance(target, ast.Subscript):
             base = self.ev(target.value, env)
             if isinstance(base, (list, dict)) and not isinstance(target.slice, ast.Slice):
-                base[self.ev(target.slice, env)] = value       # `items[idx] = ...` on a local list/dict
+                try:
+                    base[self.ev(target.slice, env)] = value       # `items[idx] = ...` on a local list/dict
+                except IndexError as err:
+                    raise PyRaise("IndexError", str(err))
+            elif isinstance(base, list) and isinstance(target.slice, ast.Slice):
+                lo = self.ev(target.slice.lower, env) if target.slice.lower else None
+                hi = self.ev(target.slice.upper, env) if target.slice.upper else None
+                st = self.ev(target.slice.step, env) if target.slice.step else None
+                base[lo:hi:st] = value
+            elif hasattr(base, "__setitem__") and isinstance(base, Obj):
+                base[self.ev(target.slice, env)] = value
             else:
                 raise Unsupported("assignment target")
         elif isinstance(target, ast.Attribute):
@@ -395,14 +521,20 @@ class Evaluator:
             cur = self.ev(s.target, env)
             v = self.ev(ast.BinOp(left=ast.Constant(cur), op=s.op, right=s.value), env) if False else None
             rhs = self.ev(s.value, env)
-            if isinstance(s.op, ast.Add):
-                new = cur + rhs
-            elif isinstance(s.op, ast.Sub):
-                new = cur - rhs
-            elif isinstance(s.op, ast.BitOr):
-                new = cur | rhs
-            else:
+            fn = BIN_OPS.get(type(s.op))
+            if fn is None:
                 raise Unsupported("augassign op")
+            if isinstance(cur, list) and isinstance(s.op, ast.Add):
+                cur.extend(rhs)                 # in place, like list.__iadd__
+                new = cur
+            elif isinstance(cur, set) and isinstance(s.op, (ast.BitOr, ast.BitAnd, ast.Sub)):
+                {ast.BitOr: cur.update, ast.BitAnd: cur.intersection_update, ast.Sub: cur.difference_update}[type(s.op)](rhs)
+                new = cur
+            else:
+                try:
+                    new = fn(cur, rhs)
+                except TypeError as err:
+                    raise PyRaise("TypeError", str(err))
             self.assign(s.target, new, env)
         elif isinstance(s, ast.Return):
             raise _Return(self.ev(s.value, env) if s.value is not None else None)
@@ -439,6 +571,13 @@ class Evaluator:
         elif isinstance(s, ast.FunctionDef):
             # a nested helper: a closure over the current environment (read access to the enclosing variables)
             env[s.name] = self._closure(s, env)
+        elif isinstance(s, ast.Nonlocal):
+            env.setdefault("$nonlocal", set()).update(s.names)
+        elif isinstance(s, ast.Global):
+            env.setdefault("$global", set()).update(s.names)
+        elif isinstance(s, ast.AnnAssign):
+            if s.value is not None:
+                self.assign(s.target, self.ev(s.value, env), env)
         elif isinstance(s, ast.Break):
             raise _Break()
         elif isinstance(s, ast.Continue):
@@ -546,3 +685,31 @@ def module_regexes(model, modname):
         elif ent.get("kind") == "const":
             out[name] = ent["value"]
     return out
+
+
+_GEN_CACHE = {}
+
+
+def is_generator(funcdef):
+    """does the body of this def (not of a def nested in it) yield?"""
+    if isinstance(funcdef, ast.Lambda):
+        return False
+    k = id(funcdef)
+    hit = _GEN_CACHE.get(k)
+    if hit is not None and hit[0] is funcdef:
+        return hit[1]
+    v = _is_generator(funcdef)
+    _GEN_CACHE[k] = (funcdef, v)
+    return v
+
+
+def _is_generator(funcdef):
+    stack = list(funcdef.body)
+    while stack:
+        n = stack.pop()
+        if isinstance(n, (ast.Yield, ast.YieldFrom)):
+            return True
+        if isinstance(n, (ast.FunctionDef, ast.AsyncFunctionDef, ast.Lambda, ast.ClassDef)):
+            continue
+        stack.extend(ast.iter_child_nodes(n))
+    return False
